@@ -127,7 +127,10 @@ pub fn check(c: &c01::Case) -> Verdict {
     };
     let prefilled = !prefill.is_empty();
     let mut dest = Dest::new(prefill.clone(), p0).with_snapshots();
-    let out = run_dump(&mut w, &mut dest);
+    // in a quarter of the scenarios some of the best-effort files cannot be opened by the dumper, so
+    // that directory slots stay unused in the middle of the image
+    let deny = if (fp_json(c) >> 16) % 4 == 0 { ((fp_json(c) >> 20) & 0xff) as u32 } else { 0 };
+    let out = crate::vcore::faultfs::with_denied_files(deny, 2, || run_dump(&mut w, &mut dest)).0;
     match &out {
         DumpOutcome::Panic(loc, msg) => return panic_verdict(loc, msg),
         _ => {}
@@ -228,6 +231,9 @@ pub fn check(c: &c01::Case) -> Verdict {
         }
     }
     let mut classes = vec![format!("writes:{}", n_snaps / 10 * 10)];
+    if deny != 0 {
+        classes.push("best-effort-files-unopenable(unused-slots-mid-image)".into());
+    }
     if retried > 0 {
         classes.push("retry-after-aborted-request".into());
     }
@@ -250,7 +256,7 @@ pub fn run(ctx: &mut LaneCtx) {
         SubSpec {
             name: "prefix-snapshots",
             cases: (128, 6_000),
-            rule: "generated scenarios (as C01, up to 6 extra threads) dumped into a recording destination (empty, or holding 400 KiB of older content that is overwritten from position 0 or 4096); EVERY write boundary of each scenario is decoded in truncation mode and an I/O error is injected at EVERY destination call in turn (exhaustive per scenario), and for two of those calls the same writer then makes another request whose prefixes are judged as well; non-trivial = scenario has boundaries between the append of a stream and the write of its directory entry; distinct = hash of scenario",
+            rule: "generated scenarios (as C01, up to 6 extra threads) dumped into a recording destination (empty, or holding 400 KiB of older content that is overwritten from position 0 or 4096; in a quarter of the scenarios a subset of the best-effort files cannot be opened by the dumper, so that directory slots stay unused in the middle of the image); EVERY write boundary of each scenario is decoded in truncation mode and an I/O error is injected at EVERY destination call in turn (exhaustive per scenario), and for two of those calls the same writer then makes another request whose prefixes are judged as well; non-trivial = scenario has boundaries between the append of a stream and the write of its directory entry; distinct = hash of scenario",
             strategy: c01::case_strategy(7).boxed(),
             max_shrink_iters: 100,
             log_current: true,
